@@ -130,23 +130,6 @@ theorem norm_fixed_of_isNF (one : Nat) (t : NExp) (h : isNF one t = true) : norm
 example : isNF 2 (.add (.add (.atom 0 1) (.mul (.atom 0 1) (.atom 0 1)))
     (.mul (.mul (.atom 0 1) (.atom 1 1)) (.num 2))) = true := by decide
 
-/-- Invariance of the normal form under the generators that need no invariant of the normaliser:
-`Suc x = x + 1`, `x + 0 = x`, `x * 0 = 0`.
-PARTIAL: associativity, commutativity and distributivity (and `0 + x`, `x * 1`, which re-insert the
-monomials of an already normalised argument) are not proved in Lean -- `norm_canonical` would need
-`isNF (norm t)` and the algebra of sorted merging; the property oracle checks them on the
-implementation on rearranged pairs (every run), and `norm_sound` shows both sides always have the
-value of the input. -/
-theorem norm_canonical_partial (one : Nat) (a : NExp) :
-    norm one (.suc a) = norm one (.add a (.num 1)) ∧
-    norm one (.add a (.num 0)) = norm one a ∧
-    norm one (.mul a (.num 0)) = norm one (.num 0) := by
-  refine ⟨rfl, ?_, ?_⟩
-  · show addP one (norm one a) (.num 0) = norm one a
-    simp only [addP]; exact insM_zero one _
-  · show mulP one (norm one a) (.num 0) = .num 0
-    simp only [mulP]; exact polyMono_zero one _
 
-example : norm 2 (.mul (.add (.atom 0 1) (.atom 1 1)) (.num 0)) = .num 0 := by rfl
 
 end Holpy.C10
